@@ -82,8 +82,11 @@ func c02Templates(tier string) []string {
 		}
 		add("(a "+o1+" b)[c]", "(a "+o1+" b).k", "a[b "+o1+" c]", "a "+o1+" b[c:]", "a "+o1+" b[c:d]", "(a "+o1+" b)(c)", "a "+o1+" f(b)", "a "+o1+" b.c",
 			"x => x "+o1+" 1", "(x => x "+o1+" 1)(3)", "a "+o1+" (x => x)", "a++ "+o1+" b", "a "+o1+" b++", "{a "+o1+" b: c}", "{a: b "+o1+" c}",
-			"a "+o1+" b; "+"c "+o1+" d", "a "+o1+" b\n-c", "return a "+o1+" b", "len(a "+o1+" b)", "func(){a "+o1+" b}", "a "+o1+" func(){b}()", "a "+o1+" if b {c} else {d}", "a "+o1+" [b]", "a "+o1+" {b:c}")
+			"a "+o1+" b; "+"c "+o1+" d", "a "+o1+" b\n-c", "return a "+o1+" b", "len(a "+o1+" b)", "func(){a "+o1+" b}", "a "+o1+" func(){b}()", "a "+o1+" if b {c} else {d}", "a "+o1+" [b]", "a "+o1+" {b:c}",
+			"{(a "+o1+" b): c}", "{a: (b "+o1+" c)}", "{(a "+o1+" b): (c "+o1+" d), e: f}", "{a: b, (c "+o1+" d): e}", "[(a "+o1+" b)]", "f((a "+o1+" b), c)", "a[(b "+o1+" c)]", "a.(b "+o1+" c)")
 	}
+	// a dot or a number next to a dot or a number
+	add("1. 5", "1 .5", "1; ..", "1; .5", "a. 5", "a. .5", "a. ..", "a.(b.c)", "a.(b(1))", "a.(b[1])", "a.(1+2)", "a.(-1)", "a.b.(c)", "1.5.a", "(1).a", "(1.).a", "a.1.2", "..; 1", ".5; .5", "1; 1", "1.; .1", "a.b; .5")
 	for _, p := range rtPrefix {
 		for _, q := range rtPrefix {
 			add(p+q+"a", p+"("+q+"a)", p+" "+q+"a")
